@@ -179,24 +179,58 @@ func c04(c *Ctx) {
 		first, step, okL := loopIndex(ia.Index)
 		r.Check(okL && first == 0 && step == 1, "C04.R2", cons+" order", p.Pos(posOf(mc)), "index runs 0,1,2,…",
 			"the scan does not visit conditions in registration order starting at the first (first/step of the index are not 0/+1): a later-registered condition can win")
-		// true edge → return Result() of the same value
-		iff, _ := mc.Block().Instrs[len(mc.Block().Instrs)-1].(*ssa.If)
-		okT := false
-		if iff != nil && iff.Cond == ssa.Value(mc) {
-			tb := mc.Block().Succs[0]
-			for _, ins := range tb.Instrs {
-				if ret, ok := ins.(*ssa.Return); ok && len(ret.Results) == 1 {
-					if rc, ok := retResult(ret, 0).(*ssa.Call); ok && rc.Call.IsInvoke() && rc.Call.Method.Name() == "Result" && rc.Call.Value == mc.Call.Value {
-						okT = true
+		// true edge → every way on from a true Match ends in `return <that element>.Result()`; false edge → no return
+		// before the index has moved on (the way back through the loop header)
+		var iff *ssa.If
+		trueSucc, falseSucc := 0, 1
+		for _, ref := range *mc.Referrers() {
+			if i2, ok := ref.(*ssa.If); ok {
+				iff = i2
+			}
+			if un, ok := ref.(*ssa.UnOp); ok && un.Op == token.NOT && un.Referrers() != nil {
+				for _, r2 := range *un.Referrers() {
+					if i2, ok := r2.(*ssa.If); ok {
+						iff, trueSucc, falseSucc = i2, 1, 0
 					}
 				}
 			}
+		}
+		okT := false
+		if iff != nil {
+			okT = c04MatchedReturns(mc, iff.Block(), iff.Block().Succs[trueSucc])
 			// false edge continues the loop (does not return)
-			fb := mc.Block().Succs[1]
-			for _, ins := range fb.Instrs {
-				if _, ok := ins.(*ssa.Return); ok {
-					okT = false
+			var hdr *ssa.BasicBlock
+			base := ia.Index
+			for {
+				if bo, isB := base.(*ssa.BinOp); isB && bo.Op == token.ADD {
+					base = bo.X
+					continue
 				}
+				break
+			}
+			if ph, ok := base.(*ssa.Phi); ok {
+				hdr = ph.Block()
+			}
+			seen := map[*ssa.BasicBlock]bool{}
+			var walk func(b *ssa.BasicBlock)
+			walk = func(b *ssa.BasicBlock) {
+				if seen[b] || b == hdr {
+					return
+				}
+				seen[b] = true
+				for _, ins := range b.Instrs {
+					if _, ok := ins.(*ssa.Return); ok {
+						okT = false
+					}
+				}
+				for _, sx := range b.Succs {
+					walk(sx)
+				}
+			}
+			if hdr == nil {
+				okT = false
+			} else {
+				walk(iff.Block().Succs[falseSucc])
 			}
 		}
 		r.Check(okT, "C04.R2", cons+" returns the matching condition's result", p.Pos(posOf(mc)), "Match true ⇒ return that matcher's Result(); false ⇒ continue",
@@ -1094,4 +1128,60 @@ func checkPairwiseArity(p *Prog, r *Report, rule string, fn *ssa.Function) {
 		r.Check(eq, rule, "row arity equals argument count in "+shortName(fn), p.Pos(posOf(ev)), "len(expressions) == len(arguments) dominates the position-wise evaluation",
 			"a group of expressions is evaluated position by position without a dominating test that it has exactly as many expressions as there are arguments: a shorter In-row matches on a prefix of the call's arguments (or a longer one indexes past them)")
 	})
+}
+
+
+// c04MatchedReturns: from the edge taken when the Match call mc returned true, every path ends in a return of
+// Result() invoked on the same list element; branches whose condition is already decided by what is known on that edge
+// (the loop's own bound test, repeated after the loop) are followed only on the decided side; coming back to the Match
+// (continuing the scan after a match) fails.
+func c04MatchedReturns(mc *ssa.Call, from, first *ssa.BasicBlock) bool {
+	facts := append(guardsAt(from), Guard{Cond: mc, Pol: true})
+	seen := map[*ssa.BasicBlock]bool{}
+	ok := true
+	nRet := 0
+	var walk func(b *ssa.BasicBlock)
+	walk = func(b *ssa.BasicBlock) {
+		if !ok || seen[b] {
+			return
+		}
+		if b == mc.Block() {
+			ok = false
+			return
+		}
+		seen[b] = true
+		switch t := b.Instrs[len(b.Instrs)-1].(type) {
+		case *ssa.Return:
+			good := false
+			if len(t.Results) == 1 {
+				if rc, isC := retResult(t, 0).(*ssa.Call); isC && rc.Call.IsInvoke() && rc.Call.Method.Name() == "Result" &&
+					(rc.Call.Value == mc.Call.Value || sameCondExpr(rc.Call.Value, mc.Call.Value, 0)) {
+					good = true
+					nRet++
+				}
+			}
+			if !good {
+				ok = false
+			}
+		case *ssa.If:
+			for _, f := range facts {
+				if f.Cond == t.Cond || sameCondExpr(f.Cond, t.Cond, 0) {
+					if f.Pol {
+						walk(b.Succs[0])
+					} else {
+						walk(b.Succs[1])
+					}
+					return
+				}
+			}
+			walk(b.Succs[0])
+			walk(b.Succs[1])
+		case *ssa.Jump:
+			walk(b.Succs[0])
+		default:
+			ok = false // panic: a matched condition must yield its result
+		}
+	}
+	walk(first)
+	return ok && nRet > 0
 }
